@@ -119,13 +119,8 @@ func ValidateSchemaDocument(sd *SchemaDocument) (*Schema, error) {
 			if def == nil {
 				return nil, gqlerror.ErrorPosf(entrypoint.Position, "Schema root %s refers to a type %s that does not exist.", entrypoint.Operation, entrypoint.Type)
 			}
-			switch entrypoint.Operation {
-			case Query:
-				schema.Query = def
-			case Mutation:
-				schema.Mutation = def
-			case Subscription:
-				schema.Subscription = def
+			if err := setRootOperationType(&schema, entrypoint, def); err != nil {
+				return nil, err
 			}
 		}
 		if err := validateDirectives(&schema, sd.Schema[0].Directives, LocationSchema, nil); err != nil {
@@ -140,13 +135,8 @@ func ValidateSchemaDocument(sd *SchemaDocument) (*Schema, error) {
 			if def == nil {
 				return nil, gqlerror.ErrorPosf(entrypoint.Position, "Schema root %s refers to a type %s that does not exist.", entrypoint.Operation, entrypoint.Type)
 			}
-			switch entrypoint.Operation {
-			case Query:
-				schema.Query = def
-			case Mutation:
-				schema.Mutation = def
-			case Subscription:
-				schema.Subscription = def
+			if err := setRootOperationType(&schema, entrypoint, def); err != nil {
+				return nil, err
 			}
 		}
 		if err := validateDirectives(&schema, ext.Directives, LocationSchema, nil); err != nil {
@@ -198,6 +188,27 @@ func ValidateSchemaDocument(sd *SchemaDocument) (*Schema, error) {
 	}
 
 	return &schema, nil
+}
+
+// setRootOperationType records a root operation type; each operation can be given one only
+// once, by the schema definition or by one of its extensions.
+func setRootOperationType(schema *Schema, entrypoint *OperationTypeDefinition, def *Definition) *gqlerror.Error {
+	var root **Definition
+	switch entrypoint.Operation {
+	case Query:
+		root = &schema.Query
+	case Mutation:
+		root = &schema.Mutation
+	case Subscription:
+		root = &schema.Subscription
+	default:
+		return nil
+	}
+	if *root != nil {
+		return gqlerror.ErrorPosf(entrypoint.Position, "Schema root %s is defined more than once.", entrypoint.Operation)
+	}
+	*root = def
+	return nil
 }
 
 func validateTypeDefinitions(schema *Schema) *gqlerror.Error {
